@@ -281,7 +281,7 @@ func cmdCheck(args []string) int {
 	}
 	outDir := filepath.Join(root, "out", "smt", *prop)
 	os.RemoveAll(outDir)
-	dischargeAll(ctxs, outDir, timeout, 6, *tier == "thorough")
+	dischargeAll(ctxs, outDir, timeout, 8, *tier == "thorough")
 
 	// classify
 	total, discharged := 0, 0
